@@ -26,7 +26,9 @@ Drop list (nothing else is changed; the report counts every edit):
   D3 `struct TypeSpace` re-declared with the five allocator fields only; the
      extractor fails (exit 2) if an extracted body mentions another field
   D4 `schemars::schema::Schema` and `serde_json::Value` declared as opaque
-     structs with the derives the real ones have (prelude.rs)
+     structs with the derives the real ones have; `schemars::schema::Metadata`
+     reduced to its `default` field, the only one the extracted code reads
+     (prelude.rs)
   D5 info!/debug!/warn!/trace! statements removed
   D7 `pub struct TypeId(u64);` is written `pub struct TypeId(pub u64);` so the
      specification can speak about the number; SchemaWrapper and
@@ -268,6 +270,15 @@ def main():
         for other in OTHER_FIELDS:
             if re.search(r"\bself\s*\.\s*%s\b" % other, strip_strings_and_comments(t)):
                 raise Lost("add_type_with_name mentions field `%s` outside the allocator subset" % other)
+        t, _ = take(te, te_c, r"^    pub\(crate\) fn new\(value: serde_json::Value\) -> Self", "WrappedValue::new", rep, te_path, attrs=False)
+        fns["wrapped_value_new"] = t
+        t, _ = take(lib, lib_c, r"^    pub fn add_type\(", "TypeSpace::add_type", rep, lib_path, attrs=False)
+        fns["add_type"] = t
+        t, _ = take(lib, lib_c, r"^    fn id_for_schema\b", "TypeSpace::id_for_schema", rep, lib_path, attrs=False)
+        fns["id_for_schema"] = t
+        for other in OTHER_FIELDS:
+            if re.search(r"\bself\s*\.\s*%s\b" % other, strip_strings_and_comments(t)):
+                raise Lost("id_for_schema mentions field `%s` outside the allocator subset" % other)
         # D8: the tail of add_ref_types_impl -- `self.break_cycles(..)` up to the final `Ok(())`
         sp = find_item(lib, r"^    fn add_ref_types_impl\b", lib_c)
         if not sp:
@@ -351,10 +362,11 @@ def main():
         g.append("\n// ======== /repo text (functions), contracts spliced ========\n")
         # From<TypeEntryDetails> and TypeEntry::name are free functions here: Verus rejects
         # `requires/ensures` on trait impl methods, and impl blocks on external types.
+        g.append("impl WrappedValue {\n" + fn_with_contract("wrapped_value_new", fns["wrapped_value_new"]) + "\n}\n\n")
         g.append("impl TypeEntry {\n" + fn_with_contract("name", fns["name"]) + "\n}\n\n")
         g.append("impl From<TypeEntryDetails> for TypeEntry {\n" + fn_with_contract("from_details", fns["from_details"]) + "\n}\n\n")
         g.append("impl TypeSpace {\n")
-        for f in FUNCS + ["convert_ref_type_tail", "add_type_with_name", "add_ref_types_tail"]:
+        for f in FUNCS + ["convert_ref_type_tail", "id_for_schema", "add_type_with_name", "add_type", "add_ref_types_tail"]:
             g.append(fn_with_contract(f, fns[f]) + "\n\n")
         g.append("}\n")
         g.append("\n} // verus!\n\nfn main() {}\n")
